@@ -60,6 +60,10 @@ ALPHABET = [
     ("hostname seattle-core", {"word": [1]}),
     ("router bgp 65001", {"as": [2]}),
     (" neighbor 10.9.8.7 remote-as 65001 description SEATTLE peer", {"ip": [1], "as": [3], "word": [5]}),
+    # inner whitespace runs on lines that do hold an item: kept exactly unless secrets or words are on
+    ("router  bgp\t65001", {"as": [2]}),
+    ("\tneighbor 10.9.8.7   remote-as  65001\t\tdescription   far  end ", {"ip": [1], "as": [3]}),
+    (" ip  address\t10.1.2.3   255.255.255.0  secondary", {"ip": [2]}),
 ]
 TERMS = [("lf", "\n", True), ("crlf", "\r\n", True), ("lf-no-final", "\n", False)]
 
